@@ -169,3 +169,15 @@ M("c10-tmc-map-g1", "C10", TMF, 'ESFTMCmap = {"F2": ESFTMC_F2, "FL": ESFTMC_FL, 
 M("c10-g1-2xi-revert", "C10", TMF, "    def _get_result_exact(self):\n        # Collect g1 result.\n        g1out = self.sf.get_esf(self.sf.obs_name, self._shifted_kinematics).get_result()\n\n        # Call to the raw integrals\n        k1out = self._k1()\n        k2out = self._k2()\n\n        # Combine the expressions and putting back `2x`\n        return (\n            2\n            * self.x", "    def _get_result_exact(self):\n        # Collect g1 result.\n        g1out = self.sf.get_esf(self.sf.obs_name, self._shifted_kinematics).get_result()\n\n        # Call to the raw integrals\n        k1out = self._k1()\n        k2out = self._k2()\n\n        # Combine the expressions and putting back `2x`\n        return (\n            2\n            * self.xi", expect="ESFTMC_g1")
 B("c10-ratio-squared", "C10", TMF, "        self._factor_shifted = self.x**2 / (self.xi**2 * self.rho**3)\n        # h2 comes with a seperate factor\n        self._factor_h2 = 6.0", "        self._factor_shifted = (self.x / self.xi) ** 2 / self.rho**3\n        # h2 comes with a seperate factor\n        self._factor_h2 = 6.0")
 B("c10-kernel-spelling", "C10", TMF, "    xi = args[0]\n    return 1 / xi * z", "    return z / args[0]")
+
+# ----------------------------------------------------------------------------- C06
+M("c06-sv-nfff", "C06", "esf/esf.py", "sv_manager.apply_diff_scale_variations(ker_orders, cfc.nf)\n                )\n            else:", "sv_manager.apply_diff_scale_variations(ker_orders, self.info.nf_ff)\n                )\n            else:", expect="C06.flow")
+M("c06-light-literal-nf", "C06", CFD + "__init__.py", "    def light_component(self):\n        \"\"\"Collect massless kernels.\"\"\"\n        nf = self.nf", "    def light_component(self):\n        \"\"\"Collect massless kernels.\"\"\"\n        nf = self.esf.info.nf_ff", expect="C06.flow")
+M("c06-mass-order", "C06", "runner.py", 'masses = np.power([new_theory["mc"], new_theory["mb"], new_theory["mt"]], 2)', 'masses = np.power([new_theory["mb"], new_theory["mc"], new_theory["mt"]], 2)', expect="C06.atlas")
+M("c06-ratio-not-squared", "C06", "runner.py", '            [new_theory["kcThr"], new_theory["kbThr"], new_theory["ktThr"]], 2\n', '            [new_theory["kcThr"], new_theory["kbThr"], new_theory["ktThr"]], 1\n', expect="C06.atlas")
+M("c06-ffns-offbyone", "C06", "input/compatibility.py", '    elif fns == "FFNS" or fns == "FFN0":\n        # enforce correct settings moving all thresholds to 0 or oo\n        for k, fl in enumerate(hqfl):\n            if k + 4 <= nf:', '    elif fns == "FFNS" or fns == "FFN0":\n        # enforce correct settings moving all thresholds to 0 or oo\n        for k, fl in enumerate(hqfl):\n            if k + 4 < nf:', expect="C06.fns")
+M("c06-fonll-two-massive", "C06", "input/compatibility.py", "            elif k + 4 > nf + 1:\n                theory[f\"k{fl}Thr\"] = np.inf\n                theory[f\"ZM{fl}\"] = True", "            elif k + 4 > nf + 1:\n                theory[f\"k{fl}Thr\"] = np.inf\n                theory[f\"ZM{fl}\"] = False", expect="C06.fns")
+M("c06-nf-twice", "C06", CFD + "__init__.py", "        nf = self.nf\n        hq = self.obs_name.hqnumber\n        masses = self.masses\n\n        comps = []\n\n        heavy_comps = {}", "        nf = nf_default(self.esf.Q2 * 4, self.esf.info.threshold)\n        hq = self.obs_name.hqnumber\n        masses = self.masses\n\n        comps = []\n\n        heavy_comps = {}", expect="C06.single")
+M("c06-nf-scale", "C06", CFD + "__init__.py", "        self.nf = nf_default(esf.Q2, esf.info.threshold)", "        self.nf = nf_default(esf.Q2 / 4.0, esf.info.threshold)", expect="C06.single")
+M("c06-zm-rewrites-thr", "C06", "input/compatibility.py", "        for fl in hqfl:\n            theory[f\"ZM{fl}\"] = True\n", "        for fl in hqfl:\n            theory[f\"ZM{fl}\"] = True\n            theory[f\"k{fl}Thr\"] = 1.0\n", expect="C06.fns")
+B("c06-fns-membership", "C06", "input/compatibility.py", '    elif fns == "FFNS" or fns == "FFN0":', '    elif fns in ("FFNS", "FFN0"):')
